@@ -33,7 +33,7 @@ META = {
                   'of whole operation traces with the implementation + direct predicates'),
     'design_ref': 'DESIGN.md section 4 C18',
     'theorems': ['C18_pure', 'C18_deterministic_region', 'C18_invariant', 'C18_reload', 'C18_overlay_value', 'C18_missing_all',
-                 'C18_environ_untouched', 'C18_priority_table', 'C18_refuted_prefix_tuple'],
+                 'C18_environ_untouched', 'C18_priority_table'],
     'tables': ['LetterCase'],
     'level_text': ('Proved in Coq for ALL operation histories (instantiations of arbitrary classes with arbitrary '
                    'arguments, Env.reload at class creation, os.environ edits) over arbitrary environments: the cache '
@@ -45,8 +45,7 @@ META = {
                    'model that is re-validated against the implementation on every run (whole traces).'),
     'level_note': ('Trusted: Coq kernel; the hand-written model (ASCII names; conversion by type, file system, '
                    'python-dotenv parsing are outside the model and exercised by the harness only); the harness. '
-                   'The full statement fails for prefix + several candidate names (open finding F37): proved on the '
-                   'safe region, refuted with a witness.'),
+                   'F13, F21, F34, F37 are repaired in /repo; the theorems are unconditional.'),
     'rule': ('histories: random universes of 2-4 field base names with typed values, 1-3 classes (all four '
              'key_lookup_with_load settings, prefixes, env_field/json_field/field_to_env_var mappings with 1-3 candidate '
              'names, Meta env_file/secrets_dir), 5-14 operations, F13-shaped delete-the-winner sequences injected; pure: one '
@@ -270,7 +269,8 @@ def short(res):
 
 
 def in_f22_region(cls, inst):
-    """open finding F37: non-empty prefix and a field mapped to SEVERAL candidate names."""
+    """F37 region (non-empty prefix and a field mapped to SEVERAL candidate names); only used with
+    ctx.is_open_region, i.e. ignored now that F37 is recorded as fixed."""
     return bool(eff(cls, inst)) and any(isinstance(f.get('explicit'), list) and len(f['explicit']) >= 2
                                         and f['name'] not in inst.get('kwargs', {}) for f in cls['fields'])
 
@@ -838,7 +838,8 @@ def inst_files(h, cls, o):
 
 
 def f22_field(cls, o, f):
-    return bool(eff(cls, o)) and isinstance(f.get('explicit'), list) and len(f['explicit']) >= 2
+    """region of F37 while it was open (prefix + several candidate names); repaired by 466ac1d: no exemption"""
+    return False
 
 
 def model_check(model_step, res, cls, o):
@@ -1040,11 +1041,12 @@ def witness_fails(ctx, w):
 def run(ctx):
     quick = ctx.tier == 'quick'
     # ---- listed findings ---------------------------------------------------------------------
-    for fid, w in ((F22_ID, F22_WITNESS),):
-        if ctx.finding(fid) is not None:
-            fails, what = witness_fails(ctx, w)
-            ctx.count(1, key='witness:' + fid)
-            ctx.known_finding(fid, still_fails=fails)
+    # witnesses of the repaired defects F21 / F37: replayed on every run; failing again = violation
+    for fid, w in (('F21', F21_WITNESS), (F22_ID, F22_WITNESS)):
+        fails, what = witness_fails(ctx, w)
+        ctx.count(1, key='witness:' + fid)
+        if fails:
+            ctx.violation('repaired defect %s has returned: %s' % (fid, what), {'finding': fid})
     # ---- generate --------------------------------------------------------------------------------
     rh = ctx.sub_rng('histories')
     hists = [gen_history(rh, 'h%d' % i, long=(not quick and i % 10 == 0)) for i in range(60 if quick else 500)]
